@@ -13,7 +13,9 @@ Text rendering (one trace = one block of lines, consumed by driver/replay.exe an
   T <name> <hdr_max_pfn> <cores> <classing 0|1>
   E <A|F> <pfn> <order> <cpu> <pid> <flags-hex>        (in time order)
   ...
-  R <rc> <free_frames> <total_frames> <free_failed>      (implementation outputs; rc 0 = exit status 0)
+  H <held> <orphaned> <unknown> <reallocs> <partial> <ill> (the Python reference `Ref` below, from the trace alone)
+  R <rc> <free_frames> <total_frames> <free_failed>      (implementation outputs; rc 0 = exit status 0,
+                                                          2 = `get` failed: the trace does not fit, other = crash)
   .
 """
 import random
